@@ -3,6 +3,7 @@ package c20
 
 import (
 	"fmt"
+	"os"
 	"os/exec"
 	"sort"
 	"strings"
@@ -59,6 +60,9 @@ type PyModule struct {
 type pyDecSpec struct {
 	Name int
 	Args int
+	// second round
+	ArgsAlt   int  // k > 0: pyAltDecArgs[k-1] instead of the arguments drawn above
+	MultiLine bool // with arguments: one argument per line, a comma after the last one
 }
 
 type pyFuncSpec struct {
@@ -75,6 +79,14 @@ type pyFuncSpec struct {
 	OneLine      bool // "def f(self): return 1" (only without docstring and nested defs)
 	DecComment   bool // a comment line between the decorators and the def
 	DocMulti     bool // with Doc: a docstring of several lines that contains the text of a class and a def
+	// second round (zero value = the plain variant)
+	NameAlt       int  // k > 0: pyAltDefNames[k-1] instead of a name of the pool
+	DecNested     bool // the nested defs carry a decorator of their own
+	LocalImport   int  // 1 `import json`, 2 `from os import path as p` as the first statement of the body
+	BodyAlt       int  // k > 0: pyAltBodies[k-1]: strings that contain #, brackets, quotes, the text of definitions
+	DefComment    bool // a comment after the colon of the def line
+	SpacedSig     bool // blanks inside the parentheses of the signature
+	BlankAfterDec bool // an empty line between the decorators and the def
 }
 
 type pyClassSpec struct {
@@ -89,11 +101,21 @@ type pyClassSpec struct {
 	ZeroComment bool // a comment at column 0 between the methods
 	SpaceLine   bool // a line of blanks only between the methods
 	DocMulti    bool // with Doc: a docstring of several lines that contains the text of a class and a def
+	// second round (zero value = the plain variant)
+	NameAlt      int  // k > 0: the class name is built from pyAltClassNames[k-1]
+	MetaName     bool // the inner class is called Meta, in every class that has one
+	InnerDec     bool // the inner class is decorated
+	InnerDeep    bool // the inner class holds a class of its own, followed by a further method of the inner class
+	Inner2       bool // a second inner class after the last method, followed by a further method of the outer class
+	BasesAlt     int  // k > 0: pyAltBases[k-1] instead of the base list drawn above
+	OneLine      bool // `class X: pass` (only for a class without anything in it)
+	ClassComment bool // a comment after the colon of the class line
 }
 
 type pyImportSpec struct {
 	Form int
 	Mod  int
+	Alt  int // second round, k > 0: 1 `from m import *`, 2 parenthesised names over several lines, 3 `from m import a as b, c as d`
 }
 
 type pySpec struct {
@@ -112,6 +134,17 @@ type pySpec struct {
 	CRLF        bool
 	SharedClass bool // the first class is called Config whatever the prefix (modules of a project may share a class name)
 	SharedFunc  bool // the first function is called Setup whatever the prefix
+	// second round (zero value = the plain variant)
+	TryImport   bool // try: import a / except ImportError: import b
+	CondDef     int  // k > 0: the k-th definition is written inside `if True:` at module level
+	StringVar   bool // module-level strings that contain the text of decorated definitions, #, brackets and quotes
+	IndentVary  bool // every block chooses its own indentation width
+	TrailingWS  bool // blanks at the end of some lines
+	LongLine    bool // a comment line of more than 65536 bytes
+	NonASCII    bool // comments and strings with letters outside ASCII
+	MixedIndent bool // every level is indented by two blanks and a tab
+	StartForm   int  // 1 the first line holds blanks only, 2 a #! line first
+	EndForm     int  // how the text ends: 1 a comment without newline, 2 a line of blanks without newline, 3 several empty lines, 4 an indented comment, 5 a form feed line
 }
 
 var (
@@ -128,10 +161,25 @@ var (
 		"try:\n    x = 1\nexcept ValueError:\n    x = 2\nfinally:\n    pass", "with open(\"f\") as fh:\n    data = fh.read()\nwhile False:\n    break",
 		"return f\"{1 + 2!r} and {3}\"", "key = lambda v: -v\nreturn {k: v for k, v in {}.items()}"}
 	pyMultiParams = []string{"", "a,", "a,\nb=1,", "*args,\n**kwargs", "a: int,\nb: str = \"x\",", "a,\n*,\nkey=None,"}
+	// second round
+	// decorator arguments: a star, two stars, a call, a list and a string with commas and brackets in them, a string with blanks
+	pyAltDecArgs    = [][]string{{"*extra"}, {"**opts"}, {"Depends(get_db)", "tags=[1,2]"}, {"\"a,(b)\"", "x=2"}, {"\"/a b/<int:id>\""}, {"[1,2]", "{\"k\":1}"}, {"a.b", "-1", "not_x", "None"}, {"'single, quoted'"}}
+	pyAltDefNames   = []string{"from_json", "import_data", "class_name", "async_run", "is_valid", "not_found", "lambda_handler", "print_all", "exec_cmd", "x", "_", "__call__", "größe", "defrag", "very_long_name_" + strings.Repeat("z", 100), "True_", "as_dict", "with_ctx", "f2"}
+	pyAltClassNames = []string{"model", "_Base", "K", "Käse", "VeryLongClassName" + strings.Repeat("Z", 100), "Classify", "Def", "Import_", "snake_case", "HTTP2Server"}
+	pyAltBases      = []string{"()", "(models.Model)", "(Generic[T])", "(Base,)", "( Base , Mixin )", "(Base,\n        Mixin,\n        )", "(Base, Mixin, metaclass=abc.ABCMeta, flag=True)", "(Base \\\n        )"}
+	pyAltBodies     = []string{"text = \"# not a comment ( [ {\"\nreturn text", "pattern = 'def fake(): \"class Fake:\"'\nreturn pattern", "sql = \"\"\"\n@fake\nclass FakeInString:\n    def fake_in_string(self):\n        pass\n\"\"\"\nreturn sql",
+		"x = 1; y = 2; return x + y", "total = (1 +\n         2)\nreturn total", "value = 1 + \\\n    2\nreturn value", "data = {\n    \"k\": [1, 2],  # comment inside brackets: def fake():\n}\nreturn data",
+		"raw = r\"\\d+\\(\"\nquote = '\\''\nreturn raw + quote", "return \"ok\" if self_check() else None", "assert True, \"class Fake: pass\"\nglobal counter\ncounter = 1",
+		"yield 1\nyield 2", "print(\"def fake():\", end=\"\")"}
 )
 
 var pyDecSpecGen = rapid.Custom(func(t *rapid.T) pyDecSpec {
-	return pyDecSpec{Name: rapid.IntRange(0, len(pyDecNames)-1).Draw(t, "decorator"), Args: rapid.SampledFrom([]int{0, 0, 0, 1, 2, 3, 4, 5}).Draw(t, "decoratorArgs")}
+	d := pyDecSpec{Name: rapid.IntRange(0, len(pyDecNames)-1).Draw(t, "decorator"), Args: rapid.SampledFrom([]int{0, 0, 0, 1, 2, 3, 4, 5}).Draw(t, "decoratorArgs")}
+	if rapid.IntRange(0, 5).Draw(t, "otherDecoratorArgs") == 5 {
+		d.ArgsAlt = rapid.IntRange(1, len(pyAltDecArgs)).Draw(t, "decoratorArgsForm")
+	}
+	d.MultiLine = rapid.IntRange(0, 5).Draw(t, "decoratorArgsOverSeveralLines") == 5
+	return d
 })
 
 var pyFuncSpecGen = rapid.Custom(func(t *rapid.T) pyFuncSpec {
@@ -153,6 +201,19 @@ var pyFuncSpecGen = rapid.Custom(func(t *rapid.T) pyFuncSpec {
 	f.OneLine = rapid.IntRange(0, 9).Draw(t, "oneLineDef") == 9
 	f.DecComment = rapid.IntRange(0, 5).Draw(t, "commentAfterDecorators") == 5
 	f.DocMulti = rapid.IntRange(0, 2).Draw(t, "docstringOfSeveralLines") == 2
+	if rapid.IntRange(0, 7).Draw(t, "otherDefName") == 7 {
+		f.NameAlt = rapid.IntRange(1, len(pyAltDefNames)).Draw(t, "defNameForm")
+	}
+	f.DecNested = rapid.IntRange(0, 3).Draw(t, "decoratedNestedDef") == 3
+	if rapid.IntRange(0, 7).Draw(t, "importInBody") == 7 {
+		f.LocalImport = rapid.IntRange(1, 2).Draw(t, "importInBodyForm")
+	}
+	if rapid.IntRange(0, 5).Draw(t, "otherBody") == 5 {
+		f.BodyAlt = rapid.IntRange(1, len(pyAltBodies)).Draw(t, "bodyForm")
+	}
+	f.DefComment = rapid.IntRange(0, 7).Draw(t, "commentAfterDefLine") == 7
+	f.SpacedSig = rapid.IntRange(0, 9).Draw(t, "blanksInSignature") == 9
+	f.BlankAfterDec = rapid.IntRange(0, 9).Draw(t, "emptyLineAfterDecorators") == 9
 	return f
 })
 
@@ -175,14 +236,34 @@ var pyClassSpecGen = rapid.Custom(func(t *rapid.T) pyClassSpec {
 	c.ZeroComment = rapid.IntRange(0, 5).Draw(t, "commentAtColumnZero") == 5
 	c.SpaceLine = rapid.IntRange(0, 5).Draw(t, "lineOfBlanks") == 5
 	c.DocMulti = rapid.IntRange(0, 2).Draw(t, "classDocstringOfSeveralLines") == 2
+	if rapid.IntRange(0, 5).Draw(t, "otherClassName") == 5 {
+		c.NameAlt = rapid.IntRange(1, len(pyAltClassNames)).Draw(t, "classNameForm")
+	}
+	if c.Inner > 0 {
+		c.MetaName = rapid.IntRange(0, 2).Draw(t, "innerClassCalledMeta") == 2
+		c.InnerDec = rapid.IntRange(0, 3).Draw(t, "innerClassDecorated") == 3
+		c.InnerDeep = rapid.IntRange(0, 3).Draw(t, "innerClassOfInnerClass") == 3
+		c.Inner2 = rapid.IntRange(0, 3).Draw(t, "secondInnerClass") == 3
+	}
+	if rapid.IntRange(0, 5).Draw(t, "otherBases") == 5 {
+		c.BasesAlt = rapid.IntRange(1, len(pyAltBases)).Draw(t, "basesForm")
+	}
+	c.OneLine = rapid.IntRange(0, 3).Draw(t, "oneLineClass") == 3
+	c.ClassComment = rapid.IntRange(0, 7).Draw(t, "commentAfterClassLine") == 7
 	return c
+})
+
+var pyImportSpecGen = rapid.Custom(func(t *rapid.T) pyImportSpec {
+	is := pyImportSpec{Form: rapid.IntRange(0, 4).Draw(t, "importForm"), Mod: rapid.IntRange(0, len(pyModules)-1).Draw(t, "module")}
+	if rapid.IntRange(0, 4).Draw(t, "otherImportForm") == 4 {
+		is.Alt = rapid.IntRange(1, 3).Draw(t, "importFormAlt")
+	}
+	return is
 })
 
 func drawPySpec(t *rapid.T) pySpec {
 	p := pySpec{}
-	p.Imports = rapid.SliceOfN(rapid.Custom(func(t *rapid.T) pyImportSpec {
-		return pyImportSpec{Form: rapid.IntRange(0, 4).Draw(t, "importForm"), Mod: rapid.IntRange(0, len(pyModules)-1).Draw(t, "module")}
-	}), 0, 4).Draw(t, "imports")
+	p.Imports = rapid.SliceOfN(pyImportSpecGen, 0, 4).Draw(t, "imports")
 	p.Classes = rapid.SliceOfN(pyClassSpecGen, 0, 4).Draw(t, "classes")
 	p.Funcs = rapid.SliceOfN(pyFuncSpecGen, 0, 3).Draw(t, "functions")
 	p.Indent = rapid.IntRange(0, 2).Draw(t, "indent")
@@ -202,6 +283,35 @@ func drawPySpec(t *rapid.T) pySpec {
 	p.CRLF = rapid.IntRange(0, 9).Draw(t, "crlf") == 9
 	p.SharedClass = rapid.IntRange(0, 2).Draw(t, "sharedClassName") == 2
 	p.SharedFunc = rapid.IntRange(0, 2).Draw(t, "sharedFunctionName") == 2
+	// second round: every new shape behind its own draw
+	if rapid.IntRange(0, 15).Draw(t, "many") == 15 {
+		// past 8 / 16 / 32 elements of every list the listener appends to, and modules of several hundred lines
+		p.Classes = append(p.Classes, rapid.SliceOfN(pyClassSpecGen, 1, 9).Draw(t, "moreClasses")...)
+		p.Funcs = append(p.Funcs, rapid.SliceOfN(pyFuncSpecGen, 0, 12).Draw(t, "moreFunctions")...)
+		p.Imports = append(p.Imports, rapid.SliceOfN(pyImportSpecGen, 0, 14).Draw(t, "moreImports")...)
+		c0 := &p.Classes[0]
+		c0.Methods = append(c0.Methods, rapid.SliceOfN(pyFuncSpecGen, 0, 16).Draw(t, "moreMethods")...)
+		c0.Decs = append(c0.Decs, rapid.SliceOfN(pyDecSpecGen, 0, 4).Draw(t, "moreClassDecorators")...)
+		if len(c0.Methods) > 0 {
+			c0.Methods[0].Decs = append(c0.Methods[0].Decs, rapid.SliceOfN(pyDecSpecGen, 1, 5).Draw(t, "moreDecorators")...)
+		}
+	}
+	p.TryImport = rapid.IntRange(0, 7).Draw(t, "tryImport") == 7
+	if rapid.IntRange(0, 5).Draw(t, "conditionalDefinition") == 5 {
+		p.CondDef = rapid.IntRange(1, 4).Draw(t, "conditionalDefinitionAt")
+	}
+	p.StringVar = rapid.IntRange(0, 5).Draw(t, "stringsThatLookLikeDefinitions") == 5
+	if rapid.IntRange(0, 3).Draw(t, "otherLayout") == 3 {
+		p.IndentVary = rapid.IntRange(0, 2).Draw(t, "indentationWidthPerBlock") == 2
+		p.TrailingWS = rapid.IntRange(0, 2).Draw(t, "trailingBlanks") == 2
+		p.LongLine = rapid.IntRange(0, 9).Draw(t, "veryLongLine") == 9
+		p.NonASCII = rapid.IntRange(0, 2).Draw(t, "nonASCIIText") == 2
+		p.MixedIndent = rapid.IntRange(0, 3).Draw(t, "blanksAndTabIndent") == 3
+		p.StartForm = rapid.IntRange(0, 2).Draw(t, "firstLine")
+		if rapid.IntRange(0, 1).Draw(t, "otherEnd") == 1 {
+			p.EndForm = rapid.IntRange(1, 4).Draw(t, "lastLine")
+		}
+	}
 	return p
 }
 
@@ -209,13 +319,36 @@ type pyWriter struct {
 	b    strings.Builder
 	unit string
 	seq  int
+	// second round
+	vary     bool     // every depth has its own width
+	trailing bool     // blanks at the end of every third line
+	nLines   int      //
+	imports  []string // sources of the import statements written inside bodies
 }
 
 func (w *pyWriter) raw(s string) { w.b.WriteString(s) }
 
+var pyVaryWidths = []int{0, 4, 6, 14, 17, 19, 27, 30, 32, 40}
+
+// ind is the indentation of a block at the given depth.
+func (w *pyWriter) ind(depth int) string {
+	if w.vary {
+		if depth < len(pyVaryWidths) {
+			return strings.Repeat(" ", pyVaryWidths[depth])
+		}
+		return strings.Repeat(" ", pyVaryWidths[len(pyVaryWidths)-1]+3*(depth-len(pyVaryWidths)+1))
+	}
+	return strings.Repeat(w.unit, depth)
+}
+
 func (w *pyWriter) line(depth int, s string) {
 	for _, l := range strings.Split(s, "\n") {
-		w.b.WriteString(strings.Repeat(w.unit, depth) + l + "\n")
+		w.nLines++
+		tail := ""
+		if w.trailing && w.nLines%3 == 0 && !strings.HasSuffix(l, "\\") {
+			tail = "  \t"
+		}
+		w.b.WriteString(w.ind(depth) + l + tail + "\n")
 	}
 }
 
@@ -224,10 +357,19 @@ func renderDecs(w *pyWriter, depth int, specs []pyDecSpec, feats map[string]bool
 	for _, ds := range specs {
 		d := PyDec{Name: pyDecNames[ds.Name%len(pyDecNames)]}
 		args := pyDecArgs[ds.Args%len(pyDecArgs)]
+		if ds.ArgsAlt > 0 {
+			args = pyAltDecArgs[(ds.ArgsAlt-1)%len(pyAltDecArgs)]
+			feats["decorator_arguments_of_other_kinds"] = true
+		}
 		text := "@" + d.Name
 		if args != nil {
 			d.Args = append([]string{}, args...)
-			text += "(" + strings.Join(args, ", ") + ")"
+			if ds.MultiLine && len(args) > 0 {
+				text += "(\n    " + strings.Join(args, ",\n    ") + ",\n)"
+				feats["decorator_arguments_over_several_lines"] = true
+			} else {
+				text += "(" + strings.Join(args, ", ") + ")"
+			}
 			feats["decorator_with_arguments"] = true
 		} else {
 			feats["decorator_without_arguments"] = true
@@ -249,9 +391,16 @@ func renderPyFunc(w *pyWriter, depth int, fs pyFuncSpec, name string, method boo
 		} else {
 			feats["decorated_function"] = true
 		}
+		if len(f.Decs) > 2 {
+			feats["decorators>2"] = true
+		}
 		if fs.DecComment {
 			w.line(depth, "# the decorated definition follows")
 			feats["comment_between_decorator_and_def"] = true
+		}
+		if fs.BlankAfterDec {
+			w.raw("\n")
+			feats["empty_line_between_decorator_and_def"] = true
 		}
 	}
 	params := pyParams[fs.Params%len(pyParams)]
@@ -271,11 +420,15 @@ func renderPyFunc(w *pyWriter, depth int, fs pyFuncSpec, name string, method boo
 	if ret != "" {
 		feats["return_annotation"] = true
 	}
-	oneLine := fs.OneLine && !fs.Doc && fs.Nested == 0
+	oneLine := fs.OneLine && !fs.Doc && fs.Nested == 0 && fs.LocalImport == 0
 	tail := ":"
 	if oneLine {
 		tail = ": return 1"
 		feats["one_line_def"] = true
+	}
+	if fs.DefComment {
+		tail += "  # class Fake: def fake(self): pass"
+		feats["comment_after_def_or_class_line"] = true
 	}
 	if fs.MultiLineSig {
 		// def name(
@@ -291,6 +444,9 @@ func renderPyFunc(w *pyWriter, depth int, fs pyFuncSpec, name string, method boo
 		}
 		w.line(depth, ")"+ret+tail)
 		feats["signature_over_several_lines"] = true
+	} else if fs.SpacedSig {
+		w.line(depth, kw+name+" ( "+strings.ReplaceAll(params, ", ", " , ")+" )"+ret+" "+tail)
+		feats["blanks_inside_signature"] = true
 	} else {
 		w.line(depth, kw+name+"("+params+")"+ret+tail)
 	}
@@ -299,15 +455,29 @@ func renderPyFunc(w *pyWriter, depth int, fs pyFuncSpec, name string, method boo
 	}
 	if fs.Doc {
 		if fs.DocMulti {
-			w.raw(strings.Repeat(w.unit, depth+1) + "\"\"\"" + pyFakeDoc + strings.Repeat(w.unit, depth+1) + "\"\"\"\n")
+			w.raw(w.ind(depth+1) + "\"\"\"" + pyFakeDoc + w.ind(depth+1) + "\"\"\"\n")
 			feats["docstring_with_class_and_def_text"] = true
 		} else {
 			w.line(depth+1, "\"\"\"Docstring of "+name+".\"\"\"")
 		}
 	}
+	switch fs.LocalImport {
+	case 1:
+		w.line(depth+1, "import json")
+		w.imports = append(w.imports, "json")
+		feats["import_inside_a_body"] = true
+	case 2:
+		w.line(depth+1, "from os import path as p")
+		w.imports = append(w.imports, "os")
+		feats["import_inside_a_body"] = true
+	}
 	nested := func(d int) string {
 		w.seq++
 		n := fmt.Sprintf("inner_%d", w.seq)
+		if fs.DecNested {
+			w.line(d, "@functools.wraps(x)")
+			feats["decorated_nested_def"] = true
+		}
 		w.line(d, "def "+n+"(x):")
 		f.Nested = append(f.Nested, n)
 		feats["nested_def"] = true
@@ -330,6 +500,10 @@ func renderPyFunc(w *pyWriter, depth int, fs pyFuncSpec, name string, method boo
 		w.line(depth+2, "pass")
 	}
 	body := pyBodies[fs.Body%len(pyBodies)]
+	if fs.BodyAlt > 0 {
+		body = pyAltBodies[(fs.BodyAlt-1)%len(pyAltBodies)]
+		feats["body_with_strings_brackets_continuations"] = true
+	}
 	if strings.Contains(body, "\n    ") {
 		feats["compound_statement_in_body"] = true
 	}
@@ -339,6 +513,17 @@ func renderPyFunc(w *pyWriter, depth int, fs pyFuncSpec, name string, method boo
 
 func pyImportLine(is pyImportSpec, feats map[string]bool) (string, string) {
 	mod := pyModules[is.Mod%len(pyModules)]
+	switch is.Alt {
+	case 1:
+		feats["from_import_star"] = true
+		return "from " + mod + " import *", mod
+	case 2:
+		feats["from_import_names_over_several_lines"] = true
+		return "from " + mod + " import (\n    name_a,\n    name_b as b,\n)", mod
+	case 3:
+		feats["from_import"] = true
+		return "from " + mod + " import name_a as a, name_b as b", mod
+	}
 	switch is.Form % 5 {
 	case 0:
 		return "import " + mod, mod
@@ -356,17 +541,58 @@ func pyImportLine(is pyImportSpec, feats map[string]bool) (string, string) {
 func renderPy(p pySpec, prefix, path string) PyModule {
 	m := PyModule{Path: path}
 	feats := map[string]bool{}
-	w := &pyWriter{unit: []string{"    ", "  ", "\t"}[p.Indent%3]}
+	w := &pyWriter{unit: []string{"    ", "  ", "\t"}[p.Indent%3], vary: p.IndentVary, trailing: p.TrailingWS}
+	if p.MixedIndent && !p.IndentVary {
+		w.unit = "  \t"
+		feats["indentation_by_blanks_and_tab"] = true
+	}
+	switch p.StartForm {
+	case 1:
+		w.raw("   \n")
+		feats["first_line_of_blanks"] = true
+	case 2:
+		w.raw("#!/usr/bin/env python\n")
+		feats["first_line_#!"] = true
+	}
+	if p.IndentVary {
+		feats["indentation_width_differs_between_blocks"] = true
+	}
+	if p.TrailingWS {
+		feats["blanks_at_line_ends"] = true
+	}
 	if p.Comments {
 		w.line(0, "# -*- coding: utf-8 -*-\n# generated module: class Fake: def fake(): pass")
+	}
+	if p.NonASCII {
+		w.line(0, "# Größe, 価格, naïve: class Fälschung: def fälschen(self): pass\nTITLE = \"Übergröße – 価格\"")
+		feats["non_ascii_text_in_comments_and_strings"] = true
+	}
+	if p.LongLine {
+		w.line(0, "# "+strings.Repeat("long line ", 7000))
+		feats["line_longer_than_65536_bytes"] = true
 	}
 	for _, is := range p.Imports {
 		text, mod := pyImportLine(is, feats)
 		w.line(0, text)
 		m.Imports = append(m.Imports, mod)
 	}
+	if len(p.Imports) > 8 {
+		feats["imports>8"] = true
+	}
+	if p.TryImport {
+		w.line(0, "try:")
+		w.line(1, "import simplejson as json")
+		w.line(0, "except ImportError:")
+		w.line(1, "import json")
+		m.Imports = append(m.Imports, "simplejson", "json")
+		feats["imports_in_try_except"] = true
+	}
 	if p.ModuleVars {
 		w.line(0, "VERSION = \"1.0\"\n_registry = {}")
+	}
+	if p.StringVar {
+		w.line(0, "TEMPLATE = \"\"\"\n@fake\nclass FakeInString:\n    def fake_in_string(self):\n        pass\n\ndef fake_function():\n    import fake_module\n\"\"\"\nPATTERN = \"# not a comment ( [ {\"\nQUOTE = 'def fake(): \"x\"'")
+		feats["module_level_strings_that_look_like_definitions"] = true
 	}
 	type def struct {
 		class int // index or -1
@@ -407,20 +633,43 @@ func renderPy(p pySpec, prefix, path string) PyModule {
 	}
 	writeLate(0)
 	usedFn := map[string]bool{}
+	usedCls := map[string]bool{}
 	for di, d := range defs {
 		for i := 0; i < p.BlankLines; i++ {
 			w.b.WriteString("\n")
 		}
+		bd := 0 // depth of the definition
+		if p.CondDef == di+1 {
+			// a definition written inside an if block at module level
+			w.line(0, "if True:")
+			bd = 1
+			feats["definition_inside_if_at_module_level"] = true
+		}
 		if d.class >= 0 {
 			cs := p.Classes[d.class]
 			c := PyClass{Name: fmt.Sprintf("%sModel%d", prefix, d.class+1)}
+			if cs.NameAlt > 0 {
+				alt := pyAltClassNames[(cs.NameAlt-1)%len(pyAltClassNames)]
+				c.Name = fmt.Sprintf("%s%s%d", prefix, alt, d.class+1)
+				if prefix == "" && len([]rune(alt)) == 1 {
+					c.Name = alt // a name of one letter
+				}
+				for usedCls[c.Name] {
+					c.Name += "_"
+				}
+				feats["class_name:"+pyNameClass(alt)] = true
+			}
 			if p.SharedClass && d.class == 0 {
 				c.Name = "Config"
 				feats["class_name_used_in_several_modules"] = true
 			}
-			c.Decs = renderDecs(w, 0, cs.Decs, feats)
+			usedCls[c.Name] = true
+			c.Decs = renderDecs(w, bd, cs.Decs, feats)
 			if len(c.Decs) > 0 {
 				feats["decorated_class"] = true
+			}
+			if len(c.Decs) > 2 {
+				feats["decorators>2"] = true
 			}
 			head := "class " + c.Name
 			switch cs.Bases {
@@ -431,46 +680,85 @@ func renderPy(p pySpec, prefix, path string) PyModule {
 			case 3:
 				head += "(Base, metaclass=Meta)"
 			}
-			w.line(0, head+":")
+			if cs.BasesAlt > 0 {
+				head = "class " + c.Name + pyAltBases[(cs.BasesAlt-1)%len(pyAltBases)]
+				feats["other_base_list_forms"] = true
+			}
+			comment := ""
+			if cs.ClassComment {
+				comment = "  # def fake(self): class Fake:"
+				feats["comment_after_def_or_class_line"] = true
+			}
+			nothingInside := !cs.Doc && !cs.Attr && len(cs.Methods) == 0 && cs.Inner == 0 && cs.Property == 0
+			if cs.OneLine && nothingInside {
+				w.line(bd, head+": pass"+comment)
+				feats["one_line_class"] = true
+				m.Classes = append(m.Classes, c)
+				writeLate(di + 1)
+				continue
+			}
+			w.line(bd, head+":"+comment)
 			empty := true
 			if cs.Doc {
 				if cs.DocMulti {
-					w.raw(w.unit + "\"\"\"" + pyFakeDoc + w.unit + "\"\"\"\n")
+					w.raw(w.ind(bd+1) + "\"\"\"" + pyFakeDoc + w.ind(bd+1) + "\"\"\"\n")
 					feats["docstring_with_class_and_def_text"] = true
 				} else {
-					w.line(1, "\"\"\"A generated class.\"\"\"")
+					w.line(bd+1, "\"\"\"A generated class.\"\"\"")
 				}
 				empty = false
 			}
 			if cs.Attr {
-				w.line(1, "table = \"t\"\ncount = 0")
+				w.line(bd+1, "table = \"t\"\ncount = 0")
 				empty = false
 			}
 			usedM := map[string]bool{}
-			var inner *PyClass
+			var inners []PyClass
 			writeInner := func() {
 				// an inner class with an attribute and a method; the outer class goes on afterwards
 				ic := PyClass{Name: fmt.Sprintf("%sMeta%d", prefix, d.class+1)}
-				w.line(1, "class "+ic.Name+":")
-				w.line(2, "ordering = \"name\"")
-				w.line(2, "def label(self):")
-				w.line(3, "return self.ordering")
+				if cs.MetaName {
+					ic.Name = "Meta"
+					feats["inner_classes_of_one_name"] = true
+				}
+				if cs.InnerDec {
+					w.line(bd+1, "@dataclass")
+					ic.Decs = []PyDec{{Name: "dataclass"}}
+					feats["decorated_inner_class"] = true
+					feats["decorated_class"] = true
+					feats["decorator_without_arguments"] = true
+				}
+				w.line(bd+1, "class "+ic.Name+":")
+				w.line(bd+2, "ordering = \"name\"")
+				w.line(bd+2, "def label(self):")
+				w.line(bd+3, "return self.ordering")
 				ic.Methods = append(ic.Methods, PyFunc{Name: "label"})
-				inner = &ic
+				if cs.InnerDeep {
+					dc := PyClass{Name: fmt.Sprintf("%sDeep%d", prefix, d.class+1), Methods: []PyFunc{{Name: "deep"}}}
+					w.line(bd+2, "class "+dc.Name+":")
+					w.line(bd+3, "def deep(self):")
+					w.line(bd+4, "pass")
+					w.line(bd+2, "def after_deep(self):")
+					w.line(bd+3, "pass")
+					ic.Methods = append(ic.Methods, PyFunc{Name: "after_deep"})
+					inners = append(inners, dc)
+					feats["inner_class_of_an_inner_class"] = true
+				}
+				inners = append(inners, ic)
 				feats["inner_class"] = true
 				empty = false
 			}
 			writeProperty := func() {
 				// two defs of one name: the getter and the setter of a property
-				w.line(1, "@property")
-				w.line(1, "def value(self):")
-				w.line(2, "return self._value")
+				w.line(bd+1, "@property")
+				w.line(bd+1, "def value(self):")
+				w.line(bd+2, "return self._value")
 				if p.BlankLines > 0 {
 					w.b.WriteString("\n")
 				}
-				w.line(1, "@value.setter")
-				w.line(1, "def value(self, new):")
-				w.line(2, "self._value = new")
+				w.line(bd+1, "@value.setter")
+				w.line(bd+1, "def value(self, new):")
+				w.line(bd+2, "self._value = new")
 				c.Methods = append(c.Methods, PyFunc{Name: "value", Decs: []PyDec{{Name: "property"}}}, PyFunc{Name: "value", Decs: []PyDec{{Name: "value.setter"}}})
 				feats["property_getter_and_setter"] = true
 				feats["decorated_method"] = true
@@ -486,7 +774,7 @@ func renderPy(p pySpec, prefix, path string) PyModule {
 					feats["comment_at_column_0_in_class_body"] = true
 				}
 				if cs.SpaceLine && mi == 1 {
-					w.raw(w.unit + "  \n")
+					w.raw(w.ind(bd+1) + "  \n")
 					feats["line_of_blanks_in_class_body"] = true
 				}
 			}
@@ -498,6 +786,10 @@ func renderPy(p pySpec, prefix, path string) PyModule {
 					writeProperty()
 				}
 				name := pyMethNames[ms.Name%len(pyMethNames)]
+				if ms.NameAlt > 0 {
+					name = pyAltDefNames[(ms.NameAlt-1)%len(pyAltDefNames)]
+					feats["def_name:"+pyNameClass(name)] = true
+				}
 				for usedM[name] {
 					name += "_again"
 				}
@@ -506,8 +798,11 @@ func renderPy(p pySpec, prefix, path string) PyModule {
 					w.b.WriteString("\n")
 				}
 				between(mi)
-				c.Methods = append(c.Methods, renderPyFunc(w, 1, ms, name, true, feats))
+				c.Methods = append(c.Methods, renderPyFunc(w, bd+1, ms, name, true, feats))
 				empty = false
+			}
+			if len(cs.Methods) > 8 {
+				feats["methods_of_one_class>8"] = true
 			}
 			if cs.Inner > len(cs.Methods) {
 				writeInner()
@@ -515,18 +810,33 @@ func renderPy(p pySpec, prefix, path string) PyModule {
 			if cs.Property > len(cs.Methods) {
 				writeProperty()
 			}
+			if cs.Inner > 0 && cs.Inner2 {
+				// a second inner class, and the outer class goes on once more
+				ic := PyClass{Name: fmt.Sprintf("%sAdmin%d", prefix, d.class+1), Methods: []PyFunc{{Name: "list_display"}}}
+				w.line(bd+1, "class "+ic.Name+":")
+				w.line(bd+2, "def list_display(self):")
+				w.line(bd+3, "return []")
+				w.line(bd+1, "def tail(self):")
+				w.line(bd+2, "pass")
+				c.Methods = append(c.Methods, PyFunc{Name: "tail"})
+				inners = append(inners, ic)
+				feats["two_inner_classes_in_one_class"] = true
+			}
 			if empty {
-				w.line(1, "pass")
+				w.line(bd+1, "pass")
 			}
-			if inner != nil {
-				m.Classes = append(m.Classes, *inner)
-			}
+			m.Classes = append(m.Classes, inners...)
 			m.Classes = append(m.Classes, c)
 			writeLate(di + 1)
 			continue
 		}
 		fs := p.Funcs[d.fn]
 		name := pyFuncNames[fs.Name%len(pyFuncNames)] + prefix
+		if fs.NameAlt > 0 {
+			alt := pyAltDefNames[(fs.NameAlt-1)%len(pyAltDefNames)]
+			name = alt + prefix
+			feats["def_name:"+pyNameClass(alt)] = true
+		}
 		if p.SharedFunc && d.fn == 0 {
 			name = "Setup"
 			feats["function_name_used_in_several_modules"] = true
@@ -535,18 +845,44 @@ func renderPy(p pySpec, prefix, path string) PyModule {
 			name += "_again"
 		}
 		usedFn[name] = true
-		m.Funcs = append(m.Funcs, renderPyFunc(w, 0, fs, name, false, feats))
+		m.Funcs = append(m.Funcs, renderPyFunc(w, bd, fs, name, false, feats))
 		writeLate(di + 1)
+	}
+	if len(m.Classes) > 8 {
+		feats["classes>8"] = true
+	}
+	if len(m.Funcs) > 8 {
+		feats["module_level_functions>8"] = true
 	}
 	if p.MainGuard {
 		w.line(0, "if __name__ == \"__main__\":")
 		w.line(1, "print(\"start\")")
 		feats["main_guard"] = true
 	}
+	m.Imports = append(m.Imports, w.imports...)
 	m.Code = w.b.String()
+	if n := strings.Count(m.Code, "\n"); n > 300 {
+		feats["lines>300"] = true
+	} else if n > 150 {
+		feats["lines>150"] = true
+	}
 	if p.NoFinalNL {
-		m.Code = strings.TrimRight(m.Code, "\n")
+		m.Code = strings.TrimRight(m.Code, "\n \t")
 		feats["no_final_newline"] = true
+	}
+	switch p.EndForm {
+	case 1:
+		m.Code += ends(m.Code) + "# the end: class Fake: pass"
+		feats["ends_with_comment_without_newline"] = true
+	case 2:
+		m.Code += ends(m.Code) + "    "
+		feats["ends_with_blanks_without_newline"] = true
+	case 3:
+		m.Code += ends(m.Code) + "\n\n  \n\n"
+		feats["ends_with_empty_lines"] = true
+	case 4:
+		m.Code += ends(m.Code) + "        # an indented comment at the end\n"
+		feats["ends_with_indented_comment"] = true
 	}
 	if p.CRLF {
 		m.Code = strings.ReplaceAll(m.Code, "\n", "\r\n")
@@ -557,6 +893,31 @@ func renderPy(p pySpec, prefix, path string) PyModule {
 	}
 	sort.Strings(m.Features)
 	return m
+}
+
+// ends gives the newline that is missing at the end of the text.
+func ends(code string) string {
+	if code == "" || strings.HasSuffix(code, "\n") {
+		return ""
+	}
+	return "\n"
+}
+
+// pyNameClass says which family of the second round's names a name belongs to.
+func pyNameClass(n string) string {
+	switch {
+	case len([]rune(n)) == 1:
+		return "one_letter"
+	case len(n) > 60:
+		return "very_long"
+	case len(n) != len([]rune(n)):
+		return "non_ascii"
+	case strings.HasPrefix(n, "_"):
+		return "leading_underscore"
+	case strings.ToLower(n) == n && !strings.Contains(n, "_"):
+		return "lower_case"
+	}
+	return "contains_a_keyword_or_is_unusual" // from_json, class_name, Def, True_, HTTP2Server, ...
 }
 
 // ---------------------------------------------------------------------------------------
@@ -729,9 +1090,11 @@ func judgePyContainer(c core_domain.CodeContainer, m PyModule) string {
 type PyCase struct {
 	Module PyModule `json:"module"`
 	// Follow: what is analysed next in the same process, without resetting anything in between:
-	// 1 a small module with one class and one function, 2 an empty module, 3 the same module again.
+	// 1 a small module with one class and one function, 2 an empty module, 3 the same module again,
+	// 4 Variant: the same module under other names (same path).
 	// Each analysis must give the model of its own module and leave the earlier result untouched.
-	Follow int `json:"follow,omitempty"`
+	Follow  int       `json:"follow,omitempty"`
+	Variant *PyModule `json:"variant,omitempty"`
 }
 
 var pyFollowModule = PyModule{Path: "pkg/second.py", Code: "import second_mod\n\n\nclass Second:\n    def only(self):\n        pass\n\n\ndef second_fn():\n    pass\n",
@@ -745,11 +1108,17 @@ func drawFollow(t *rapid.T) int {
 }
 
 func genPyCase(t *rapid.T) PyCase {
-	return PyCase{Module: renderPy(drawPySpec(t), "", "pkg/module.py"), Follow: drawFollow(t)}
+	spec := drawPySpec(t)
+	c := PyCase{Module: renderPy(spec, "", "pkg/module.py"), Follow: drawFollow(t)}
+	if c.Follow > 0 && rapid.IntRange(0, 3).Draw(t, "followUpWithOtherNames") == 3 {
+		v := renderPy(spec, "X", "pkg/module.py")
+		c.Follow, c.Variant = 4, &v
+	}
+	return c
 }
 
 // judgeFollow analyses the follow-up module of the case in the state the first analysis left behind.
-func judgeFollow(c PyCase, first core_domain.CodeContainer) string {
+func judgeFollow(c PyCase, first core_domain.CodeContainer, app *pyapp.PythonIdentApp) string {
 	if c.Follow == 0 {
 		return ""
 	}
@@ -759,6 +1128,8 @@ func judgeFollow(c PyCase, first core_domain.CodeContainer) string {
 		next, what = PyModule{Path: "pkg/__init__.py"}, "an empty module"
 	case 3:
 		next, what = c.Module, "the same module again"
+	case 4:
+		next, what = *c.Variant, "the same module under other names"
 	}
 	if pythonRejectsNext(next.Code) != "" {
 		// the lexer keeps state between files: the follow-up parse is outside the domain when the shipped parser rejects it there
@@ -769,7 +1140,7 @@ func judgeFollow(c PyCase, first core_domain.CodeContainer) string {
 	resetPythonLexer()
 	pythonRejectsNext(c.Module.Code)
 	var res core_domain.CodeContainer
-	if p := call(func() { res = new(pyapp.PythonIdentApp).Analysis(next.Code, next.Path) }); p != "" {
+	if p := call(func() { res = app.Analysis(next.Code, next.Path) }); p != "" { // the application object of the first analysis
 		return "PythonIdentApp.Analysis panicked on " + what + " analysed after the module below: " + p
 	}
 	if msg := judgePyContainer(res, next); msg != "" {
@@ -800,10 +1171,14 @@ func pyClasses(m PyModule) (classes []string, nonTrivial bool) {
 }
 
 func runPy(code, path string) (core_domain.CodeContainer, string) {
+	return runPyWith(new(pyapp.PythonIdentApp), code, path)
+}
+
+func runPyWith(app *pyapp.PythonIdentApp, code, path string) (core_domain.CodeContainer, string) {
 	ast_python.VerifResetAstPython()
 	resetPythonLexer()
 	var res core_domain.CodeContainer
-	p := call(func() { res = new(pyapp.PythonIdentApp).Analysis(code, path) })
+	p := call(func() { res = app.Analysis(code, path) })
 	return res, p
 }
 
@@ -812,7 +1187,8 @@ func checkPyCase(c PyCase) pbt.Verdict {
 		pbt.Count("python_rejected_by_shipped_parser", 1)
 		return pbt.Verdict{Skip: true}
 	}
-	res, p := runPy(c.Module.Code, c.Module.Path)
+	app := new(pyapp.PythonIdentApp) // one application object for the module and its follow-up, as in analysis.CommonAnalysis
+	res, p := runPyWith(app, c.Module.Code, c.Module.Path)
 	if p != "" {
 		return pbt.Fail("PythonIdentApp.Analysis panicked on a module its parser accepts: %s\n--- %s\n%s", p, c.Module.Path, c.Module.Code)
 	}
@@ -822,7 +1198,7 @@ func checkPyCase(c PyCase) pbt.Verdict {
 	if e := marshalOK(res); e != "" {
 		return pbt.Fail("result cannot be marshalled: %s", e)
 	}
-	if msg := judgeFollow(c, res); msg != "" {
+	if msg := judgeFollow(c, res, app); msg != "" {
 		return pbt.Fail("%s\n--- %s\n%s", msg, c.Module.Path, c.Module.Code)
 	}
 	v := pbt.Verdict{}
@@ -842,6 +1218,7 @@ func checkPyCase(c PyCase) pbt.Verdict {
 func genPyPlain(t *rapid.T) PyCase {
 	spec := drawPySpec(t)
 	spec.Indent, spec.Comments, spec.NoFinalNL = 0, false, false
+	// the shapes of the second round stay: all of them are valid Python as well
 	plainFn := func(f *pyFuncSpec) {
 		f.Async = false
 		if f.Nested > 1 {
@@ -877,6 +1254,12 @@ func cpythonRejects(code string) string {
 func checkPyPlain(c PyCase) pbt.Verdict {
 	if pbt.Excluded("py_lexer_token_queue") && pythonRejects(c.Module.Code) != "" {
 		return pbt.Verdict{Skip: true}
+	}
+	if os.Getenv("C20_PYTHON3_ALL") != "" {
+		// self-test of the generator: every module, not only the failing ones, is shown to python3
+		if why := cpythonRejects(c.Module.Code); why != "" {
+			panic("c20 generator bug: python3 rejects a module of the plain generator: " + why + "\n" + c.Module.Code)
+		}
 	}
 	res, p := runPy(c.Module.Code, c.Module.Path)
 	msg := ""
